@@ -35,9 +35,13 @@ def load_mutations():
             if os.path.exists(meta) and os.path.exists(patch):
                 with open(meta) as fh:
                     m = json.load(fh)
-                muts.append({"name": "seeded-" + d, "property": m["property"],
-                             "expect": m.get("expect", "violation"), "patch": patch,
-                             "what": m.get("what", "")})
+                # a compliant refactoring (expect: quiet) may list several properties: every
+                # listed check must stay quiet on it
+                for prop in m.get("properties") or [m["property"]]:
+                    suffix = "" if not m.get("properties") else "-" + prop
+                    muts.append({"name": "seeded-" + d + suffix, "property": prop,
+                                 "expect": m.get("expect", "violation"), "patch": patch,
+                                 "what": m.get("what", "")})
     return muts
 
 
